@@ -258,8 +258,20 @@ func (g *gen) nestedWallet(ds *defSpec) *wallet {
 	}
 	var fullN, partN, noneN int
 	match := func(d *descSpec) {
-		t := g.synth(d)
-		c := g.render(t, g.securingFor(ds, d, g.p(0.97)))
+		// steering only: up to 4 attempts until the reference agrees that the credential satisfies the descriptor
+		var c *cred
+		for try := 0; try < 4; try++ {
+			t := g.synth(d)
+			c = g.render(t, g.securingFor(ds, d, g.p(0.97)))
+			if g.ref == nil {
+				break
+			}
+			if x := g.ref.desc(d.id); x != nil {
+				if ok, _, _ := g.ref.satisfies(x, c); ok {
+					break
+				}
+			}
+		}
 		c.role = "match:" + d.id
 		w.creds = append(w.creds, c)
 	}
